@@ -82,7 +82,7 @@ theorem number_identifies_feature (s : State) (hi : Inv s) (f : Feat) (n : Nat) 
     fun hf hn => numbered_lookup hi.numS hnp.2.2.1 hf hn, fun hf hn => numbered_lookup hi.numR hi.nodupR hf hn⟩
 
 /-- regions of the record never overlap one another — after any history, on linear and circular
-    records (this relies on the D25 repair of `add_region`) -/
+    records (this relies on the D39 repair of `add_region`) -/
 theorem regions_never_overlap (s : State) (hi : Inv s) :
     s.regions.Pairwise (fun r r' => locationsOverlap r.loc r'.loc = false) := hi.disjointR
 
